@@ -180,6 +180,8 @@ Fixpoint spec_decode (t : vtype) (file : list N) (off : N) : sres :=
   | TyInt =>
       match sp_get file off, sp_get file (off + 1) with
       | Some len, Some width =>
+          (* a width no IntVector has is refused before the raw vector is looked at (repair ed19660) *)
+          if (width =? 0) || (64 <? width) then SInvalid else
           match sp_raw file (off + 2) with
           | SOk sz (SRaw rl ws) => SOk (2 + sz) (SInt len width rl ws)
           | SOk _ _ => SFree
